@@ -1,19 +1,20 @@
-#!/bin/sh
+#!/bin/bash
 # usage: lib/mutant_run.sh Cxx patch.diff [extra ./check args]
 # Runs ./check Cxx against a scratch copy of /repo with patch.diff applied, inside a scratch
 # copy of /verif, so neither /repo nor /verif is touched.  Everything is removed afterwards.
-set -e
+# Exit status = exit status of ./check in the scratch copy (1 when a VIOLATION was reported).
 PROP="$1"; PATCH="$(readlink -f "$2")"; shift 2
 D=$(mktemp -d /tmp/mut-XXXXXX)
 trap 'rm -rf "$D"' EXIT
-rsync -a --exclude .git /repo/ "$D/repo/"
+rsync -a --exclude .git /repo/ "$D/repo/" || [ $? -eq 24 ] || { echo "rsync /repo failed"; exit 2; }
 ( cd "$D/repo" && patch -p1 -s < "$PATCH" ) || { echo "patch failed"; exit 2; }
-rsync -a --exclude .git --exclude .work --exclude replays --exclude evidence /verif/ "$D/verif/"
+# other agents may be rebuilding under /verif while we copy: vanished files (24) are fine
+rsync -a --exclude .git --exclude .work --exclude replays --exclude evidence --exclude seeded /verif/ "$D/verif/" || [ $? -eq 24 ] || { echo "rsync /verif failed"; exit 2; }
 sed -i "s#=> /repo#=> $D/repo#" "$D/verif/harness/go.mod"
 mkdir -p "$D/verif/evidence"
 cd "$D/verif"
-set +e
-VERIF_REPO="$D/repo" ./check "$PROP" "$@" 2>&1 | sed "s#$D/verif/replays#(scratch replays)#"
+VERIF_REPO="$D/repo" ./check "$PROP" "$@" > "$D/out.txt" 2>&1
 RC=$?
+sed "s#$D/verif/replays#(scratch replays)#" "$D/out.txt"
 for f in replays/*.json; do [ -f "$f" ] && { echo "--- $f"; head -c 1500 "$f"; echo; }; done 2>/dev/null | head -80
 exit $RC
